@@ -394,6 +394,11 @@ pub struct DevCase {
     pub receiver: Receiver,
     pub tone_period: u16,
     pub channel: u8,
+    /// 48K receivers only (a 48K file's AY chunk switches the optional AY on): 0 = AY enabled
+    /// in the receiver, 1 = disabled by the host settings, 2 = switched off by a previously
+    /// loaded 48K SZX whose AY chunk does not ask for the AY
+    #[serde(default)]
+    pub ay_off: u8,
 }
 
 pub fn check_devices(c: &DevCase, rec: &mut Rec) -> Result<(), String> {
@@ -429,9 +434,24 @@ pub fn check_devices(c: &DevCase, rec: &mut Rec) -> Result<(), String> {
         encode_with_idle(&f_state, c.enc)
     };
     let mut e = prepare_receiver(machine, c.receiver, true)?;
+    let ay_off = if machine == Machine::K48 { c.ay_off % 3 } else { 0 };
+    match ay_off {
+        1 => e.set_ay_enabled(false),
+        2 => {
+            // an earlier 48K snapshot without the AY flag
+            let mut prev = st.clone();
+            prev.ay = Some((1, [0x55; 16]));
+            let f0 = encode_with_idle_flags(&prev, Enc::SzxStored, 0);
+            load(&mut e, Enc::SzxStored, f0).map_err(|x| format!("well-formed 48K SZX with AY flags 0 rejected: {}", x))?;
+        }
+        _ => {}
+    }
     load(&mut e, c.enc, file).map_err(|x| format!("well-formed {:?} file rejected: {}", c.enc, x))?;
     rec.eval();
-    let tag = format!("{:?} into receiver {:?}", c.enc, c.receiver);
+    let tag = format!("{:?} into receiver {:?}{}", c.enc, c.receiver, ["", " with the AY disabled by settings", " whose AY was switched off by an earlier 48K SZX"][ay_off as usize]);
+    if ay_off != 0 {
+        rec.class(if ay_off == 1 { "ay-off-receiver:settings" } else { "ay-off-receiver:earlier-snapshot" });
+    }
     // audible state first (before any port access touches the chip)
     while e.next_audio_sample().is_some() {}
     let mut samples: Vec<f32> = Vec::new();
@@ -531,6 +551,10 @@ pub fn check_devices(c: &DevCase, rec: &mut Rec) -> Result<(), String> {
 }
 
 fn encode_with_idle(st: &State, enc: Enc) -> Vec<u8> {
+    encode_with_idle_flags(st, enc, 2)
+}
+
+fn encode_with_idle_flags(st: &State, enc: Enc, ay_flags: u8) -> Vec<u8> {
     // like `encode`, but the code at PC is DI ; JR $
     let mut s = st.clone();
     s.halted = false;
@@ -553,7 +577,7 @@ fn encode_with_idle(st: &State, enc: Enc) -> Vec<u8> {
         border: s.border,
         latch: if is128 { s.latch } else { 0 },
         fe: s.border,
-        ay: s.ay.map(|(cur, regs)| szx::AyChunk { flags: 2, current: cur, regs }),
+        ay: s.ay.map(|(cur, regs)| szx::AyChunk { flags: ay_flags, current: cur, regs }),
         kempston_joystick: None,
         mouse: s.mouse.map(|m| if m { 2 } else { 0 }),
     };
@@ -859,8 +883,8 @@ pub fn run(run: &mut Run) {
         "devices-ay-mouse",
         t.pick(400, 12_000),
         || {
-            (state_strategy(), prop_oneof![Just(Enc::SzxStored), Just(Enc::SzxZlib), Just(Enc::SzxFancy)], receiver_strategy(), 40u16..1500, 0u8..3)
-                .prop_map(|(st, enc, receiver, tone_period, channel)| DevCase { st, enc, receiver, tone_period, channel })
+            (state_strategy(), prop_oneof![Just(Enc::SzxStored), Just(Enc::SzxZlib), Just(Enc::SzxFancy)], receiver_strategy(), 40u16..1500, 0u8..3, 0u8..3)
+                .prop_map(|(st, enc, receiver, tone_period, channel, ay_off)| DevCase { st, enc, receiver, tone_period, channel, ay_off })
         },
         check_devices,
     );
